@@ -87,6 +87,8 @@ cfg("C09_thorough", 2, 1, 2, 2, BASE + ["MoveSame", "StripOpt", "AddDataFails", 
 C11A = ["CreateGroup", "CreateObject", "AddData", "SetVal", "Rename", "RemoveViaWorkspace", "RemoveViaParent", "Close", "Open",
         "CallClosed", "AddDataFails", "SaveAs", "Helper", "OpenAgain"]
 cfg("C11_quick", 1, 1, 1, 1, C11A, 5, names=("a", "b"))
+# a workspace constructed read-only and re-opened for writing: the final save of close (deferred entities, half-written nodes)
+cfg("C11ro_quick", 1, 1, 1, 1, ["CreateObject", "AddDataFails", "CreateDeferred", "Close", "Open"], 8, names=("a",), vals=(1,))
 cfg("C11_thorough", 2, 1, 2, 1, C11A + ["Move", "Copy", "AddToGroup", "Collect", "DropRef"], 6, names=("a", "b"))
 # --- C12: copies of data / objects / groups, deep and shallow, then edits of copy and source, re-open
 C12A = ["CreateGroup", "CreateObject", "AddData", "AddToGroup", "Copy", "SetVal", "SetMeta", "Rename", "Close", "Open"]
